@@ -28,6 +28,10 @@ PROPS = {
         "streams": [
             {"name": "wire-decode", "quick": 20000, "thorough": 400000},
             {"name": "wire-mutations", "quick": 24, "thorough": 400},
+            # the RELEASE build of the server itself gets the deepest legal pointer chain over TCP (its worker
+            # threads' stack is what the clause is about); thorough tier only (release build of the repo)
+            {"name": "server-deep", "quick": 1, "thorough": 1, "shards": 1, "fixed": True, "tiers": ["thorough"],
+             "bins_release": ["resolved"]},
             # maximal backward pointer chains on a 2 MiB-stack thread: dev profile up to depth 4000,
             # release profile (the profile the property is about) up to the 8180 maximum
             {"name": "wire-deep", "quick": 4000, "thorough": 4000, "shards": 1, "fixed": True},
